@@ -203,6 +203,20 @@ def busy_time_accounting(ctx, P, views):
     def want(cls, m, node, got, terms, why):
         lin = _lin(rules.inline_locals(fn, got)) if got is not None else None       # (fn: the method being examined; temporaries are read through)
         ob.ok("%s.%s:%s" % (cls.name, m, unparse(node)[:40]), "%s.%s: %s" % (cls.name, m, unparse(node)[:90]))
+        if lin is not None and lin[0] != terms and lin[1] == 0:
+            # a field stored from the same expression names the same value (`t = now - start; srvr.total_time = t; archive.append(t)`): expected field terms are
+            # spelled out with what the field was assigned in this method
+            exp = dict(terms)
+            for y in ast.walk(fn):
+                if isinstance(y, ast.Assign) and len(y.targets) == 1 and isinstance(y.targets[0], ast.Attribute) and unparse(y.targets[0]) in exp and y is not node:
+                    sub = _lin(rules.inline_locals(fn, y.value))
+                    if sub is not None and sub[1] == 0:
+                        k_ = exp.pop(unparse(y.targets[0]))
+                        for t_, c_ in sub[0].items():
+                            exp[t_] = exp.get(t_, 0) + k_ * c_
+                        exp = {t_: c_ for t_, c_ in exp.items() if c_ != 0}
+            if lin[0] == exp:
+                return
         if lin is None or lin[0] != terms or lin[1] != 0:
             ctx.violation(ob, "R8.busy-time", "%s.%s" % (cls.name, m), unparse(node)[:100], "accounting-formula", why, loc(node))
     for view in views:
